@@ -305,7 +305,8 @@ func main() {
 		return
 	}
 
-	mons := map[string]monitor{"C01": monC01, "C05": monC05, "C06": monC06, "C08": monC08, "C09": monC09, "C10": monC10, "C11": monC11, "C12": monC12, "C14": monC14, "C15": monC15}
+	mons := map[string]monitor{"C01": monC01, "C05": monC05, "C06": monC06, "C08": monC08, "C09": monC09, "C10": monC10, "C11": monC11, "C12": monC12, "C14": monC14, "C15": monC15,
+		"C02": monIter("word"), "C03": monIter("sentence"), "C04": monIter("line")}
 
 	if *replayHex != "" {
 		var b []byte
